@@ -6,6 +6,7 @@ import DaskModel.Model.Take
 import DaskModel.Model.ArrOverlap
 import DaskModel.Model.SliceND
 import DaskModel.Model.SetItemND
+import DaskModel.Model.NormIndex
 open Dask
 open Dask.Slice1D
 open Dask.SetItem
@@ -14,6 +15,7 @@ open Dask.Take
 open Dask.ArrOverlap
 open Dask.SliceND
 open Dask.SetItemND
+open Dask.NormIndex
 
 /-! Line-protocol handlers of group `slicing` (C20, C21, C26, C29). -/
 
@@ -371,7 +373,37 @@ def hSetItemPlan : Handler := handler fun args =>
         | some (bis, vis) => .list [.list (bis.map ofBIx), .list (vis.map ofVIx)])])
   | _ => none
 
+def toEntry? (e : SExp) : Option Entry :=
+  match e with
+  | .list [.sym "sl", s] => do pure (Entry.sl (← toSlice? s))
+  | .list [.sym "int", i] => do pure (Entry.int (← i.toInt?))
+  | .list [.sym "newaxis"] => some Entry.newaxis
+  | .list [.sym "ellipsis"] => some Entry.ellipsis
+  | .list [.sym "lst", l] => do pure (Entry.lst (← l.toInts?))
+  | .list [.sym "mask", l] => do pure (Entry.mask (← (← l.toList?).mapM toBoolSym?))
+  | _ => none
+
+def ofEntry : Entry → SExp
+  | .sl s => .list [.sym "sl", ofSlice s]
+  | .int i => .list [.sym "int", .int i]
+  | .newaxis => .list [.sym "newaxis"]
+  | .ellipsis => .list [.sym "ellipsis"]
+  | .lst l => .list [.sym "lst", SExp.ofInts l]
+  | .mask m => .list [.sym "mask", .list (m.map SExp.ofBool)]
+
+/-- `(normindex (shape…) (entry…))` ↦ `(ok (entry…))` | `(raised)` -/
+def hNormIndex : Handler := handler fun args =>
+  match args with
+  | [shape, idx] => do
+    let shape ← shape.toNats?
+    let idx ← (← idx.toList?).mapM toEntry?
+    match normalizeIndex shape idx with
+    | some out => pure (ok [.list (out.map ofEntry)])
+    | none => pure raised
+  | _ => none
+
 def table : List (String × Handler) := [
+  ("normindex", hNormIndex),
   ("setitemplan", hSetItemPlan),
   ("slicend", hSliceND),
   ("overlapchunks", hOverlapChunks), ("trimchunks", hTrimChunks), ("ensuremin", hEnsureMin),
